@@ -130,4 +130,22 @@ def run(ctx):
     ]
 
 
-# MUTANTS: (scratch worktree /tmp/wt-c13, VERIF_REPO=..., quick tier) -- see bottom of file after testing
+# MUTANTS (scratch worktree under /tmp, VERIF_REPO=<worktree> ./check C13, quick tier; all exit 1):
+#  1 utf8/mod.rs code_point_bounds_violation: surrogate range 0xD800..=0xDFFF -> 0xD800..0xDFFF
+#       CAUGHT replay (ED BF BF accepted by validate_utf8/_scalar; decode_code_point) and trace
+#  2 utf8/mod.rs skip_ascii: trailing_zeros >> 3 -> >> 2
+#       CAUGHT replay (core 80 behind 1 pad byte + 8-byte tail accepted by validate_utf8/_scalar)
+#  3 utf8/simd_x86.rs validate_utf8_avx2: final zero-padded tail block not checked
+#       CAUGHT replay (input [80] accepted by validate_utf8 and _simd only)
+#  4 utf8/mod.rs line_and_column: exact zero-byte test replaced by the cheap (x - L8) & !x & H8
+#       CAUGHT trace (directed "\n\x0B" pattern: line over-counted)
+#  5 utf8/broadword.rs validate_sequence: E0 second byte A0..BF -> 80..BF (overlong accepted)
+#       CAUGHT replay (validate_utf8_broadword only)
+#  6 utf8/simd_x86.rs check_block: F4 bound uge(chunk, 0x90) -> 0x91 (F4 90 .. accepted)
+#       CAUGHT replay (validate_utf8 / _simd)
+#  7 utf8/mod.rs encode_code_point: cp < 0x800 -> cp <= 0x800
+#       CAUGHT trace (rtblk edge block around U+0800)
+#  8 utf8/mod.rs validate_utf8_scalar: truncation test pos + seq_len > len -> >=
+#       CAUGHT replay (complete sequence at end of input reported as truncated)
+#  9 utf8/simd_x86.rs check_block: must_cont uge(prev3, 0xF0) -> 0xF1
+#       CAUGHT replay
